@@ -366,6 +366,8 @@ func FieldLoadCode(f *FlagData, argName, argTypeName, validate string, defaultVa
 			}
 		}
 		if validate != "" {
+			// the validation code assigns err whatever the conversion does
+			declErr = true
 			nilCheck := "if " + argName + " != nil {"
 			if strings.HasPrefix(validate, nilCheck) {
 				// hackety hack... the validation code is generated for the client and needs to
